@@ -83,6 +83,12 @@ func (m mSchema) schema() map[string]any {
 		s["additionalProperties"] = map[string]any{"type": "string"}
 	case "int":
 		s["additionalProperties"] = map[string]any{"type": "integer"}
+	case "array":
+		s["additionalProperties"] = map[string]any{"type": "array", "items": map[string]any{"type": "integer"}}
+	case "object":
+		s["additionalProperties"] = map[string]any{"type": "object", "properties": map[string]any{"x": map[string]any{"type": "string"}, "y": map[string]any{"type": "integer"}}}
+	case "map":
+		s["additionalProperties"] = map[string]any{"type": "object", "additionalProperties": map[string]any{"type": "string"}}
 	}
 	return s
 }
@@ -162,7 +168,7 @@ func runC07(r *Report, rng *rand.Rand, thorough bool) {
 	kinds := []string{"string", "int", "int64", "double", "bool", "date", "arr", "map", "ref"}
 	var schemas []mSchema
 	for i := 0; i < nSchemas; i++ {
-		s := mSchema{Name: fmt.Sprintf("M%d", i), Addl: []string{"", "", "any", "string", "int"}[rng.Intn(5)]}
+		s := mSchema{Name: fmt.Sprintf("M%d", i), Addl: []string{"", "", "any", "string", "int", "array", "object", "map"}[rng.Intn(8)]}
 		n := 1 + rng.Intn(5)
 		for j := 0; j < n; j++ {
 			f := mField{Name: fmt.Sprintf("f%d", j), Required: rng.Intn(2) == 0, Nullable: rng.Intn(3) == 0, Kind: kinds[rng.Intn(len(kinds))]}
@@ -233,9 +239,15 @@ func runC07(r *Report, rng *rand.Rand, thorough bool) {
 					}
 				}
 				if s.Addl != "" {
-					for e := 0; e < rng.Intn(3); e++ {
+					for e := 0; e < rng.Intn(4); e++ {
 						name := []string{"extra", "x-1", "zz", "ünï"}[rng.Intn(4)]
 						switch s.Addl {
+						case "array":
+							inst[name] = [][]int{{1, 2, 3}, {4, 5, 6}, {7}, {}}[rng.Intn(4)]
+						case "object":
+							inst[name] = []map[string]any{{"x": "1"}, {"y": 2}, {"x": "2", "y": 3}, {}}[rng.Intn(4)]
+						case "map":
+							inst[name] = []map[string]any{{"p": "1"}, {"q": "2"}, {"p": "3", "r": "4"}, {}}[rng.Intn(4)]
 						case "any":
 							inst[name] = []any{"s", 1.5, map[string]any{"n": []int{1, 2}}, true}[rng.Intn(4)]
 						case "string":
@@ -348,5 +360,5 @@ func runC07(r *Report, rng *rand.Rand, thorough bool) {
 	}
 	ccases.WriteTo(r)
 	// ---- number without format is float32 (documented): a value needing more precision is narrowed
-	r.Rule = "object schemas from a grammar (1-5 members: required/optional x nullable x {string, int, int64, double, bool, date, array, map, referenced object}, some readOnly/writeOnly; additionalProperties absent / true / string / integer) x nullable-type off/on, generated and compiled; valid instances from a schema-directed generator (explicit nulls, absent optionals, empty arrays/maps, 64-bit extremes, float64 edge values, escaped and non-ASCII strings, extra members of the additional type) unmarshalled into the generated type and marshalled again; semantic JSON equality modulo the documented exception (oracle) and the model's re-encoded object (Coq); non-trivial = instance with at least two members"
+	r.Rule = "object schemas from a grammar (1-5 members: required/optional x nullable x {string, int, int64, double, bool, date, array, map, referenced object}, some readOnly/writeOnly; additionalProperties absent / true / string / integer / array of integers / object with optional members / map of strings, with 0-3 additional members) x nullable-type off/on, generated and compiled; valid instances from a schema-directed generator (explicit nulls, absent optionals, empty arrays/maps, 64-bit extremes, float64 edge values, escaped and non-ASCII strings, extra members of the additional type) unmarshalled into the generated type and marshalled again; semantic JSON equality modulo the documented exception (oracle) and the model's re-encoded object (Coq); non-trivial = instance with at least two members"
 }
